@@ -348,6 +348,16 @@ def _token_hex(n=16):
     return f"HEX{_token_counter[0]:04d}"
 
 
+class _Uuid:
+    """stand-in for uuid.uuid4(): str() has dashes, .hex does not"""
+
+    def __init__(self, *a):
+        self.hex = _token_hex(16).lower()
+
+    def __str__(self):
+        return "1b4e28ba-2fa1-11d2-883f-" + self.hex
+
+
 def _re_sub(pattern, repl, s, count=0, flags=0):
     return re.sub(pattern, repl, s, count=count, flags=flags)
 
@@ -371,7 +381,16 @@ class Interp:
             "textwrap": StubModule("textwrap", {"indent": _textwrap.indent}),
             "re": StubModule("re", {"sub": _re_sub, "escape": re.escape,
                                     "compile": re.compile}),
-            "secrets": StubModule("secrets", {"token_hex": _token_hex}),
+            "secrets": StubModule("secrets", {
+                "token_hex": _token_hex,
+                "token_urlsafe": lambda n=16: "u-R_l" + _token_hex(n)}),
+            "uuid": StubModule("uuid", {"uuid4": _Uuid, "uuid1": _Uuid}),
+            "time": StubModule("time", {"time": lambda: 1700000000.25,
+                                        "time_ns": lambda: 1700000000250000000,
+                                        "monotonic": lambda: 12345.5}),
+            "random": StubModule("random", {
+                "randint": lambda a, b: a, "getrandbits": lambda k: 12345,
+                "random": lambda: 0.5}),
             "collections": StubModule(
                 "collections", {"deque": collections.deque}),
             "types": StubModule("types", {"FunctionType": FUNCTION_TYPE}),
@@ -544,6 +563,7 @@ class Interp:
                 return "function"
         if isinstance(obj, (str, list, tuple, dict, set, frozenset, int,
                             collections.deque, bytes, range, re.Pattern,
+                            _Uuid,
                             type(iter([])),
                             type(iter("")), type(iter(())), float)) \
                 or type(obj).__name__.endswith("iterator") \
